@@ -1,0 +1,129 @@
+//go:build verif
+
+// Contracts for govc (/verif): C32 — one-time (ghost) key derivation and the hex codecs of Key/Hash/Signature/CosiSignature.
+// Comment-only file.
+//
+// Vocabulary (T-GROUP, declared and axiomatised in /verif/govc/trusted/c32.spec, all ASSUMED there): ScalarVal, InGroup, Dlog,
+// EncOf, PointOf, OnCurve, PointEnc, PointDec, ScalarEnc, ScalarDec, addL/subL/mulL (+ - * mod L), HS (HashScalar as a function of the encoded
+// point and the output index). seq(x) is the byte string held by x. All key material is identified by its byte string.
+
+package crypto
+
+//@ -- s is accepted by decodePoint: SetBytes accepts it, the point is in the prime-order subgroup and is not the identity, and s is
+//@ -- its canonical encoding (the three tests of decodePoint, in this order)
+//@ spec ValidPointBytes(s mathint) bool = OnCurve(s) && InGroup(PointOf(s)) && Dlog(PointOf(s)) != 0 && EncOf(PointOf(s)) == s
+
+//@ -- the byte strings computed by the four derivation functions, as functions of the byte strings of their arguments
+//@ -- (addL, subL, mulL: + - * mod L)
+//@ spec Shared(priv mathint, pub mathint) mathint = PointEnc(mulL(ScalarDec(priv), PointDec(pub)))
+//@ spec GhostPub(r mathint, A mathint, B mathint, i mathint) mathint = PointEnc(addL(PointDec(B), HS(Shared(r, A), i)))
+//@ spec GhostPriv(R mathint, a mathint, b mathint, i mathint) mathint = ScalarEnc(addL(HS(Shared(a, R), i), ScalarDec(b)))
+//@ spec GhostView(P mathint, a mathint, R mathint, i mathint) mathint = PointEnc(subL(PointDec(P), HS(Shared(a, R), i)))
+
+//@ -- ASSUMED (mathematical meaning of the subgroup test): [1/8]([8]p) == p and p != identity  <==>  p is a non-identity element
+//@ -- of the prime-order subgroup. The body (Equal, MultByCofactor, ScalarMult by the global invEightScalar) is not verified.
+//@ assume func isPrimeOrderPoint(p)
+//@   requires p != nil
+//@   pure
+//@   ensures result <==> InGroup(*p) && Dlog(*p) != 0
+
+//@ -- ASSUMED (coherence of the decoded-point cache): `store` is called only by decodePoint, with a point that passed the three
+//@ -- tests for exactly these 32 bytes, and `load` returns a copy of what was stored under the same bytes. The cache (a global array
+//@ -- of mutex-guarded maps) is not modelled: `store` is treated as invisible, `load` as returning nil or such a copy.
+//@ assume func (shard *decodedPointShard) load(key)
+//@   requires shard != nil
+//@   modifies nothing
+//@   ensures result == nil || fresh(result)
+//@   ensures result != nil ==> ValidPointBytes(seq(key)) && *result == PointOf(seq(key))
+//@ assume func (shard *decodedPointShard) store(key, point)
+//@   requires shard != nil && point != nil
+//@   modifies nothing
+
+//@ func decodePoint(src)
+//@   property C32
+//@   modifies nothing
+//@   ensures [accepts] err == nil <==> len(src) == 32 && ValidPointBytes(seq(src))
+//@   ensures [point] err == nil ==> result0 != nil && fresh(result0) && *result0 == PointOf(seq(src))
+//@   ensures [reject] err != nil ==> result0 == nil
+
+//@ -- (moved here from zz_contracts_c05_verif.go, where it was assumed; now verified against decodePoint)
+//@ func (k Key) CheckKey
+//@   property C32
+//@   pure
+//@   ensures result <==> ValidPoint(k)
+
+//@ -- (moved here from zz_contracts_c30_verif.go, where it was assumed; PublicOf is now defined there as PointEnc(ScalarDec(.)))
+//@ func (k Key) Public
+//@   property C32
+//@   panics when !CanonicalScalar(seq(k))
+//@   modifies nothing
+//@   ensures seq(result) == PublicOf(seq(k))
+
+//@ -- (moved here from zz_contracts_c05_verif.go, where it was assumed) the shared secret priv * pub
+//@ func KeyMultPubPriv(pub, priv)
+//@   property C32
+//@   requires pub != nil && priv != nil
+//@   panics when !ValidPoint(*pub) || !CanonicalScalarKey(*priv)
+//@   modifies nothing
+//@   ensures [shared] result != nil && fresh(result) && InGroup(*result) && Dlog(*result) == mulL(ScalarDec(seq(*priv)), PointDec(seq(*pub)))
+
+//@ -- ASSUMED (T-HASH): the scalar HashScalar returns is a function HS of the encoding of the point and of the output index
+//@ -- (uvarint of the index appended to the point bytes, two rounds of blake3 + SetUniformBytes).
+//@ -- VERIFIED: it never panics (SetUniformBytes gets 64 bytes both times, the uvarint buffer is large enough), writes nothing that
+//@ -- existed before and returns a new scalar. Its VALUE (`assumes`) is not verified against the body.
+//@ func HashScalar(k, outputIndex)
+//@   property C32
+//@   requires k != nil
+//@   modifies nothing
+//@   ensures [new-scalar] result != nil && fresh(result)
+//@   assumes ScalarVal(*result) == HS(EncOf(*k), outputIndex)
+
+//@ -- P = B + Hs(r*A, i)*G
+//@ func DeriveGhostPublicKey(r, A, B, outputIndex)
+//@   property C32
+//@   requires r != nil && A != nil && B != nil
+//@   panics when !ValidPoint(*A) || !CanonicalScalarKey(*r) || !ValidPoint(*B)
+//@   modifies nothing
+//@   ensures [ghost-public] result != nil && fresh(result) && seq(*result) == GhostPub(seq(*r), seq(*A), seq(*B), outputIndex)
+
+//@ -- p = Hs(a*R, i) + b
+//@ func DeriveGhostPrivateKey(R, a, b, outputIndex)
+//@   property C32
+//@   requires R != nil && a != nil && b != nil
+//@   panics when !ValidPoint(*R) || !CanonicalScalarKey(*a) || !CanonicalScalarKey(*b)
+//@   modifies nothing
+//@   ensures [ghost-private] result != nil && fresh(result) && seq(*result) == GhostPriv(seq(*R), seq(*a), seq(*b), outputIndex)
+
+//@ -- (moved here from zz_contracts_c05_verif.go, where it was assumed)  B = P - Hs(a*R, i)*G
+//@ func ViewGhostOutputKey(P, a, R, outputIndex)
+//@   property C32
+//@   requires P != nil && a != nil && R != nil
+//@   panics when !ValidPoint(*R) || !CanonicalScalarKey(*a) || !ValidPoint(*P)
+//@   modifies nothing
+//@   ensures result != nil && fresh(result)
+//@   ensures [ghost-view] seq(*result) == GhostView(seq(*P), seq(*a), seq(*R), outputIndex)
+
+//@ -- ---- the property, over the proved postconditions above -------------------------------------------------------------------
+//@ -- a, b are the recipient's private view and spend keys, r the sender's one-time secret; A = a*G, B = b*G, R = r*G their public
+//@ -- keys (Key.Public, whose result is PublicOf). The public key of the private key the recipient derives equals the one-time
+//@ -- public key the sender derives:   Public(DeriveGhostPrivateKey(R, a, b, i)) == DeriveGhostPublicKey(r, A, B, i)
+//@ lemma GhostKeysMatch(a mathint, b mathint, r mathint, i mathint)
+//@   property C32
+//@   requires CanonicalScalar(a) && CanonicalScalar(b) && CanonicalScalar(r)
+//@   ensures [derived-private-is-canonical] CanonicalScalar(GhostPriv(PublicOf(r), a, b, i))
+//@   ensures [keys-match] PublicOf(GhostPriv(PublicOf(r), a, b, i)) == GhostPub(r, PublicOf(a), PublicOf(b), i)
+
+//@ -- viewing the sender's one-time key with the private view key a and the transaction public key R recovers the public spend
+//@ -- key B, for EVERY valid point B (not only B = b*G with a known b)
+//@ lemma GhostViewRecovers(a mathint, r mathint, B mathint, i mathint)
+//@   property C32
+//@   requires CanonicalScalar(a) && CanonicalScalar(r) && ValidPointBytes(B)
+//@   ensures [view-recovers-spend-key] GhostView(GhostPub(r, PublicOf(a), B, i), a, PublicOf(r), i) == B
+
+//@ -- none of the calls involved panics for honest keys (non-zero canonical scalars): their public keys are valid points, and the
+//@ -- derived one-time key is a valid point unless it is the identity
+//@ lemma GhostDerivationTotal(a mathint, r mathint, B mathint, i mathint)
+//@   property C32
+//@   requires CanonicalScalar(a) && ScalarDec(a) != 0 && CanonicalScalar(r) && ScalarDec(r) != 0 && ValidPointBytes(B)
+//@   ensures [public-keys-valid] ValidPointBytes(PublicOf(a)) && ValidPointBytes(PublicOf(r))
+//@   ensures [one-time-key-valid] PointDec(GhostPub(r, PublicOf(a), B, i)) != 0 ==> ValidPointBytes(GhostPub(r, PublicOf(a), B, i))
